@@ -91,6 +91,9 @@ Proof. rewrite inject_Z_plus. reflexivity. Qed.
 Lemma inject_Z_minus1 n : inject_Z (n - 1) == inject_Z n - 1.
 Proof. unfold Z.sub. rewrite inject_Z_plus. reflexivity. Qed.
 
+Lemma inject_Z_minus a b : inject_Z (a - b) == inject_Z a - inject_Z b.
+Proof. unfold Z.sub. rewrite inject_Z_plus, inject_Z_opp. reflexivity. Qed.
+
 Lemma Qfloor_le_ceiling x : (Qfloor x <= Qceiling x)%Z.
 Proof.
   rewrite <- (Qceiling_Z (Qfloor x)).
@@ -151,3 +154,7 @@ Fixpoint failing_from (i : nat) (l : list bool) : list nat :=
 Definition failing (l : list bool) : list nat := failing_from 0 l.
 
 Definition Qclose (tol a b : Q) : bool := Qle_bool (Qabs (a - b)) tol.
+
+(** normalise divisions by the literals 2 and 20 so that lra can see them *)
+Ltac qdiv2 := unfold Qdiv in *; change (/ (2#1))%Q with (1#2) in *.
+Ltac qdiv20 := unfold Qdiv in *; change (/ (20#1))%Q with (1#20) in *; change (/ (2#1))%Q with (1#2) in *.
